@@ -1,6 +1,6 @@
 //verif:package github.com/kstenerud/go-concise-encoding/internal/verifh/c23
 //verif:config cap=300 steps=400000000 timeout=120000 maxsec=1800
-//verif:bounds decode-then-re-encode: the text the real CTE encoder writes for 9 templates with an 8-bit symbolic payload (quick: boundary values) - integers of both signs, strings with a character that needs escaping, typed arrays, nested containers with comments, markers/references, records, nodes and edges, media/custom/UID, floats and times - is read by the real CTE decoder (ANTLR executed by the engine) and written again by a fresh encoder; the two texts are compared byte for byte
+//verif:bounds decode-then-re-encode: the text the real CTE encoder writes for 9 templates with an 8-bit symbolic payload (quick: 8 boundary values, thorough: 72 values around the boundaries) - integers of both signs, strings with a character that needs escaping, typed arrays, nested containers with comments, markers/references, records, nodes and edges, media/custom/UID, floats and times - is read by the real CTE decoder (ANTLR executed by the engine) and written again by a fresh encoder; the two texts are compared byte for byte
 //verif:assume every symbolic character of the text is enumerated at the lexer's table lookups (one path per value)
 package c23
 
@@ -22,6 +22,8 @@ func Verif_C23_ReencodeReproducesText() {
 	v := uint64(verifrt.U8("v"))
 	if !verifrt.Thorough() {
 		verifrt.Assume(v < 2 || v == 9 || v == 10 || v == 99 || v == 100 || v == 127 || v == 128 || v == 255)
+	} else {
+		verifrt.Assume(v < 24 || (v >= 96 && v < 136) || v >= 248) // thorough: 72 values around every digit-count and sign boundary
 	}
 	c := ""
 	if which == 1 {
